@@ -925,3 +925,23 @@ func (c *Ctx) PairedArg(fnSpec, first string, i int, second, desc string) {
 	}
 	c.add("M", fnSpec, role, desc, report.OK, fmt.Sprintf("%d site(s)", len(fs)), c.posOf(fs[0]))
 }
+
+// ConstValueOrInit: pkgRel.name is a declared constant with the given value, or a package variable initialised
+// with a constant / term matching the pattern.
+func (c *Ctx) ConstValueOrInit(pkgRel, name, want string) {
+	pk := c.P.Pkg(pkgRel)
+	if pk != nil && pk.Types != nil {
+		if obj, ok := pk.Types.Scope().Lookup(name).(*types.Const); ok {
+			got := obj.Val().ExactString()
+			okv := false
+			for _, alt := range strings.Split(want, " | ") {
+				if got == strings.TrimSpace(alt) {
+					okv = true
+				}
+			}
+			c.add("C", pkgRel+"."+name, "const", "declared bound has the documented value "+want, map[bool]report.Status{true: report.OK, false: report.Violated}[okv], got, c.P.Rel(obj.Pos()))
+			return
+		}
+	}
+	c.InitStore(pkgRel, name, want, "declared bound has the documented value")
+}
